@@ -9,17 +9,19 @@
 
   Invariant `Good3` (no statement about `_last_len`): `Inv`, `OrderOK`, `RefExact` for the ghost
   ledger, not inside a context, no schedule left, no registered roots.  For `_last_len = None` it
-  is `Good2`.  Guards (`OpGuard3`): those of `UOp2`, and ONE more — while reordering is enabled a
-  decorated operation is issued with at least two declared variables (sifting one variable makes
-  the code raise `ValueError`, C07 `sift_single_variable_raises`; the C09/C17 theorems about the
-  decorator assume two).  NOT a guard: "the operands are held" — for the invariant and for the
-  references the user does hold it does not matter what the operands are (`*_total_dyn`, C17);
-  that documented obligation of dynamic reordering only appears where the RESULT is described
-  (DDProps.Histories2, `C09_every_history`).
+  is `Good2`.  Guards (`OpGuard3`): those of `UOp2`, NOTHING else.  In particular NOT a guard:
+  * "the operands are held" — for the invariant and for the references the user does hold it does
+    not matter what the operands are (`*_total_dyn`, C17); that documented obligation of dynamic
+    reordering only appears where the RESULT is described (DDProps.Histories2, `C09_every_history`);
+  * "two variables are declared" — the C09 / C17 theorems about the decorator assume it (sifting
+    one variable makes the code raise `ValueError`, C07 `sift_single_variable_raises`); with fewer
+    variables a request that fired would end in that exception with reordering left DISABLED, in a
+    state that is good all the same (`tryToReorder_few`).  Only `step3_switch` ("reordering is
+    still enabled") excludes that situation (`SwitchSafe`).
 
     `step3_inv`      : `Good3 m ext → OpGuard3 m ext op → Good3 (runOp3 op m).2 (ledger3 op m ext)`
     `step3_heldSame` : every reference the user holds stays a node, same function by NAME
-    `step3_switch`   : only `configure` changes whether reordering is enabled
+    `step3_switch`   : only `configure` changes whether reordering is enabled (`SwitchSafe`)
     `step3_noSignal` : the internal signal `_NeedsReordering` never reaches the user
     `reachable3_inv` : every state reached from the empty manager by a guarded history is `Good3`.
 -/
@@ -55,11 +57,18 @@ def UOp2.decorated : UOp2 → Bool
   | .base b => b.decorated
   | _ => false
 
-/-- the obligations of `UOp2`; while reordering is enabled, a decorated operation needs two
-declared variables -/
+/-- the obligations of `UOp2` — nothing else -/
 def OpGuard3 (m : Mgr) (ext : Nat → Nat) : UOp3 → Prop
-  | .op o => OpGuard2 m ext o ∧ (m.lastLen.isSome = true → o.decorated = true → 2 ≤ m.nvars)
+  | .op o => OpGuard2 m ext o
   | .configure _ => True
+
+/-- the situation in which the C09 / C17 theorems about the decorator do not apply: reordering
+enabled, a decorated operation, fewer than two declared variables.  (Sifting one variable makes
+the code raise `ValueError`; a request cannot fire there in a natural run — at most two nodes
+exist — but the model's trigger is abstract.)  The invariant survives it all the same
+(`tryToReorder_few`); only "reordering is still enabled afterwards" needs its negation. -/
+def SwitchSafe (m : Mgr) (op : UOp3) : Prop :=
+  ∀ o, op = .op o → m.lastLen.isSome = true → o.decorated = true → 2 ≤ m.nvars
 
 instance (m : Mgr) (ext : Nat → Nat) (op : UOp3) : Decidable (OpGuard3 m ext op) := by
   cases op <;> simp only [OpGuard3] <;> infer_instance
@@ -423,6 +432,189 @@ theorem step3_of_decorated (m : Mgr) (ext : Nat → Nat) (h : Good3 m ext) (h2 :
   | let_ d u => exact step3_of_dynTotal h _ _ (letOp_total_dyn ext hS m hD d u)
   | _ => cases hdec
 
+/-! ### the decorator with fewer than two variables
+
+The C09 / C17 theorems start from `DynInv` (two variables).  With fewer, a request that fired
+would make `reorder(bdd)` raise — after its collection, nothing else touched (`sift_few_vars`) —
+and the decorator lets that exception through with `_last_len = None`.  The state is good all
+the same and every held reference keeps its function: the history theorems need no guard. -/
+
+theorem Good3.stepK {ext : Nat → Nat} {m m' : Mgr} (h : Good3 m ext) (hs : StepK m m') : Good3 m' ext :=
+  ⟨hs.inv, h.order.frame hs.frame, (hs.keep ext h.exact).1, by rw [hs.frame.ctx]; exact h.ctx,
+   by rw [hs.frame.sched]; exact h.sched, by rw [hs.frame.roots]; exact h.roots⟩
+
+theorem held2_of_stepK {ext : Nat → Nat} {m m' : Mgr} (h : Good3 m ext) (hs : StepK m m') :
+    Held2 ext m m' := fun u hu =>
+  have hm := h.exact.mem_of_ext_pos hu
+  ⟨hs.ext.mem hm, fun σ => hs.denN h.inv.wf.toWF hm σ⟩
+
+/-- `reorder(bdd)` with fewer than two variables and no recorded schedule: it RAISES
+(`ValueError` / `UnboundLocalError`), in a state that satisfies the reordering invariant -/
+theorem sift_few_result (ext : Nat → Nat) (m : Mgr) (h : ReorderInv ext m) (hs : m.sched = [])
+    (hfew : m.nvars < 2) :
+    ∃ e mb, reorder none m = (.error e, mb) ∧ RejErr e ∧ ReorderInv ext mb ∧ ReorderRel ext m mb := by
+  obtain ⟨mg, hrun, hp⟩ := collectGarbage_spec m ext h.inv h.refExact
+  obtain ⟨hg, hrel⟩ := gcSub_keeps h hp.inv hp.refExact hp.sub
+  have hn : mg.nvars < 2 := by rw [hrel.nvars]; exact hfew
+  obtain ⟨e, mb, hres, -⟩ := sift_few_vars m mg hrun hg.order hn
+  have hk := sift_keep ext m h
+  have hns := isSchedErr_false (no_sched_report ext m h hs).2.1
+  rw [hres] at hk hns
+  rcases hk with he | ⟨hrej, hR, hrel'⟩
+  · exact absurd (by rw [show e = Err.sched from he]) hns
+  · exact ⟨e, mb, hres, hrej, hR, hrel'⟩
+
+/-- first attempt aborted by a request, `reorder` raises: the exception reaches the caller -/
+theorem tryToReorder_sift_err {α} (f : M α) (m m1 mb : Mgr) (e : Err) (hctx : m.ctx = false)
+    (h1 : f { m with ctx := true } = (.error .needsReordering, m1))
+    (h2 : reorder none { m1 with ctx := m.ctx, lastLen := none } = (.error e, mb)) :
+    tryToReorder f m = (.error e, mb) := by
+  unfold tryToReorder
+  have hw1 : withCtx f m = (.ok none, { m1 with ctx := m.ctx }) := by
+    unfold withCtx
+    rw [h1]
+    simp [hctx]
+  simp only [bind, M.bind', hw1, M.modify]
+  rw [h2]
+
+/-- what every step of a history establishes, whatever the number of variables -/
+def Few3 (m : Mgr) (ext : Nat → Nat) {α : Type} (res : Except Err α × Mgr) : Prop :=
+  Good3 res.2 ext ∧ Held2 ext m res.2 ∧ res.1 ≠ .error .needsReordering
+
+theorem Few3.same {α : Type} {m : Mgr} {ext : Nat → Nat} (h : Good3 m ext) (r : Except Err α)
+    (hr : r ≠ .error .needsReordering) : Few3 m ext (r, m) :=
+  ⟨h, fun u hu => ⟨h.exact.mem_of_ext_pos hu, fun _ => rfl⟩, hr⟩
+
+theorem Few3.mapRes {α : Type} {m : Mgr} {ext : Nat → Nat} {x : Except Err α × Mgr} (h : Few3 m ext x)
+    (f : α → Res) : Few3 m ext (mapRes f x) :=
+  ⟨h.1, h.2.1, mapRes_noSignal f x h.2.2⟩
+
+theorem Step3.few {m : Mgr} {ext : Nat → Nat} {res : Except Err Res × Mgr} (h : Step3 m ext ext res) :
+    Few3 m ext res := ⟨h.good, h.held, h.noSignal⟩
+
+/-- GENERIC: the decorator around a body that accepts arbitrary arguments (`TotE`), with fewer
+than two variables declared, whatever the switch -/
+theorem tryToReorder_few {α : Type} (ext : Nat → Nat) (f : M α)
+    (hbody : ∀ m0 : Mgr, Inv m0 → m0.ctx = true → OrderOK m0.tbl → TotE m0 (f m0))
+    (m : Mgr) (h : Good3 m ext) (hfew : m.nvars < 2) : Few3 m ext (tryToReorder f m) := by
+  have h1 := hbody { m with ctx := true } (h.inv.setCtx true) rfl h.order
+  generalize hres : f { m with ctx := true } = res at h1
+  obtain ⟨r, m1⟩ := res
+  have hs' : StepK m { m1 with ctx := m.ctx } := h1.1.ofCtx true
+  cases r with
+  | ok a =>
+    rw [tryToReorder_ok f m a m1 hres]
+    exact ⟨h.stepK hs', held2_of_stepK h hs', fun hh => by cases hh⟩
+  | error e =>
+    by_cases he : e = .needsReordering
+    · subst he
+      -- the request fired: `_last_len = None`, then `reorder(bdd)` raises
+      have hG2 : Good3 { m1 with ctx := m.ctx, lastLen := none } ext := by
+        have hg := h.stepK hs'
+        exact ⟨⟨hg.inv.wf, hg.inv.pred, hg.inv.freeGe, hg.inv.free, hg.inv.refOne, hg.inv.refDom,
+          hg.inv.cache⟩, hg.order, hg.exact.congr rfl rfl, hg.ctx, hg.sched, hg.roots⟩
+      have hR2 : ReorderInv ext { m1 with ctx := m.ctx, lastLen := none } :=
+        ⟨hG2.inv, hG2.order, hG2.exact, Or.inl hG2.ctx, fun r hr => by rw [hG2.roots] at hr; cases hr⟩
+      have hn2 : ({ m1 with ctx := m.ctx, lastLen := none } : Mgr).nvars < 2 := by
+        show m1.nvars < 2
+        have : m1.nvars = m.nvars := hs'.nvars
+        omega
+      obtain ⟨e, mb, hsift, hrej, hRb, hrel⟩ := sift_few_result ext _ hR2 hG2.sched hn2
+      rw [tryToReorder_sift_err f m m1 mb e h.ctx hres hsift]
+      have hGb : Good3 mb ext :=
+        ⟨hRb.inv, hRb.order, hRb.refExact, by rw [hrel.ctx]; exact hG2.ctx, hrel.sched hG2.sched,
+          by rw [hrel.roots]; exact hG2.roots⟩
+      refine ⟨hGb, fun u hu => ?_, fun hh => by cases hh; exact hrej.ne_signal rfl⟩
+      have hx : HeldX ext u := Or.inr hu
+      obtain ⟨-, hd1⟩ := held2_of_stepK h hs' u hu
+      refine ⟨hx.mem hGb.exact, fun σ => ?_⟩
+      rw [heldX_denN_of_heldSame hG2.inv hRb.inv hG2.exact hRb.refExact hrel.held hx σ]
+      exact hd1 σ
+    · rw [tryToReorder_err f m e m1 hres he]
+      exact ⟨h.stepK hs', held2_of_stepK h hs', fun hh => by cases hh; exact he rfl⟩
+
+theorem apply_few (ext : Nat → Nat) (m : Mgr) (h : Good3 m ext) (hfew : m.nvars < 2)
+    (op : String) (u : Int) (v w : Option Int) : Few3 m ext (apply op u v w m) := by
+  have same : ∀ e : Err, e ≠ .needsReordering →
+      Few3 m ext ((.error e, m) : Except Err Int × Mgr) :=
+    fun e he => Few3.same h _ (by simpa using he)
+  unfold apply
+  split
+  · next e heq =>
+    refine same e ?_
+    intro he; subst he
+    unfold assertOperatorArity at heq
+    repeat' split at heq
+    all_goals simp at heq
+  split
+  · exact same _ (by simp)
+  split
+  · exact same _ (by simp)
+  split
+  · exact same _ (by simp)
+  split
+  · exact same _ (by simp)
+  split
+  · exact Few3.same h _ (by simp)
+  · split
+    · exact same _ (by simp)
+    split
+    · exact same _ (by simp)
+    split
+    · exact tryToReorder_few ext _ (fun m0 hI _ _ => iteRaw_totE m0 hI _ _ _) m h hfew
+    · exact same _ (fun he => by subst he; exact atomVal_noNR _ _ _ _ (by assumption))
+    · exact same _ (fun he => by subst he; exact atomVal_noNR _ _ _ _ (by assumption))
+    · exact same _ (fun he => by subst he; exact atomVal_noNR _ _ _ _ (by assumption))
+  · split
+    · exact same _ (by simp)
+    split
+    · split
+      · next e heq => exact same e (fun he => by subst he; exact support_noNR _ _ heq)
+      · exact tryToReorder_few ext _ (fun m0 hI hc _ => quantifyBody_totE m0 hI hc _ _ _) m h hfew
+    · exact same _ (fun he => by subst he; exact atomVal_noNR _ _ _ _ (by assumption))
+    · exact same _ (fun he => by subst he; exact atomVal_noNR _ _ _ _ (by assumption))
+  · exact same _ (by simp)
+  · exact same _ (by simp)
+
+/-- a decorated operation with ANY arguments and fewer than two variables, whatever the switch -/
+theorem decorated_few (m : Mgr) (ext : Nat → Nat) (h : Good3 m ext) (hfew : m.nvars < 2)
+    (b : UOp) (hdec : b.decorated = true) : Few3 m ext (runOp b m) := by
+  cases b with
+  | var name =>
+    refine Few3.mapRes ?_ _
+    rw [var_eq]
+    exact tryToReorder_few ext _ (fun m0 hI _ _ => varBody_totE m0 hI name) m h hfew
+  | ite g u v =>
+    exact Few3.mapRes (tryToReorder_few ext _ (fun m0 hI _ _ => iteRaw_totE m0 hI g u v) m h hfew) _
+  | apply o u v w => exact Few3.mapRes (apply_few ext m h hfew o u v w) _
+  | neg u => exact Few3.mapRes (apply_few ext m h hfew "not" u none none) _
+  | cofactor u values =>
+    exact Few3.mapRes (tryToReorder_few ext (cofactorBody u values)
+      (fun m0 hI _ _ => cofactorBody_totE m0 hI u values) m h hfew) _
+  | quantify u qvars fa =>
+    exact Few3.mapRes (tryToReorder_few ext (quantifyBody u qvars fa)
+      (fun m0 hI hc _ => quantifyBody_totE m0 hI hc u qvars fa) m h hfew) _
+  | compose f varSub =>
+    exact Few3.mapRes (tryToReorder_few ext (composeBody f varSub)
+      (fun m0 hI hc _ => composeBody_totE m0 hI hc f varSub) m h hfew) _
+  | rename u dvars =>
+    exact Few3.mapRes (tryToReorder_few ext (renameBody u dvars)
+      (fun m0 hI hc _ => renameBody_totE m0 hI hc u dvars) m h hfew) _
+  | let_ d u =>
+    refine Few3.mapRes ?_ _
+    unfold letOp
+    split
+    · exact Few3.same h _ (by simp)
+    · exact Few3.same h _ (by simp)
+    · exact Few3.same h _ (by simp)
+    · exact tryToReorder_few ext (cofactorBody u _)
+        (fun m0 hI _ _ => cofactorBody_totE m0 hI u _) m h hfew
+    · exact tryToReorder_few ext (composeBody u _)
+        (fun m0 hI hc _ => composeBody_totE m0 hI hc u _) m h hfew
+    · exact tryToReorder_few ext (renameBody u _)
+        (fun m0 hI hc _ => renameBody_totE m0 hI hc u _) m h hfew
+  | _ => cases hdec
+
 /-! ### one step -/
 
 theorem ledger_decorated (b : UOp) (m : Mgr) (ext : Nat → Nat) (hdec : b.decorated = true) :
@@ -431,8 +623,8 @@ theorem ledger_decorated (b : UOp) (m : Mgr) (ext : Nat → Nat) (hdec : b.decor
 
 /-- every operation of `UOp2`, any setting of the switch -/
 theorem step3_op (m : Mgr) (ext : Nat → Nat) (h : Good3 m ext) (o : UOp2)
-    (hg : OpGuard3 m ext (.op o)) : Step3 m ext (ledger2 o m ext) (runOp2 o m) := by
-  obtain ⟨hg2, hg3⟩ := hg
+    (hg2 : OpGuard2 m ext o) (hg3 : m.lastLen.isSome = true → o.decorated = true → 2 ≤ m.nvars) :
+    Step3 m ext (ledger2 o m ext) (runOp2 o m) := by
   cases o with
   | base b =>
     cases hdec : b.decorated with
@@ -459,12 +651,43 @@ theorem step3_op (m : Mgr) (ext : Nat → Nat) (h : Good3 m ext) (o : UOp2)
   | reorderTo sch o => exact (reorder_step3 m ext h _ hg2 (Or.inr (Or.inr ⟨sch, o, rfl⟩))).1
   | undeclare vrs => exact undeclare_step3 m ext h vrs
 
+/-- every operation of `UOp2`, any setting of the switch, ANY number of variables -/
+theorem step3_op_few (m : Mgr) (ext : Nat → Nat) (h : Good3 m ext) (o : UOp2) (hg : OpGuard2 m ext o) :
+    Good3 (runOp2 o m).2 (ledger2 o m ext) ∧ Held2 ext m (runOp2 o m).2 ∧
+    (runOp2 o m).1 ≠ .error .needsReordering := by
+  by_cases hsafe : m.lastLen.isSome = true → o.decorated = true → 2 ≤ m.nvars
+  · have hs := step3_op m ext h o hg hsafe
+    exact ⟨hs.good, hs.held, hs.noSignal⟩
+  · have hen : m.lastLen.isSome = true := by
+      by_cases hc : m.lastLen.isSome = true
+      · exact hc
+      · exact absurd (fun hh _ => absurd hh hc) hsafe
+    have hdec : o.decorated = true := by
+      by_cases hc : o.decorated = true
+      · exact hc
+      · exact absurd (fun _ hh => absurd hh hc) hsafe
+    have hfew : m.nvars < 2 := by
+      rcases Nat.lt_or_ge m.nvars 2 with hc | hc
+      · exact hc
+      · exact absurd (fun _ _ => hc) hsafe
+    cases o with
+    | base b =>
+      have hf := decorated_few m ext h hfew b hdec
+      show Good3 (runOp b m).2 (ledger b m ext) ∧ _
+      rw [ledger_decorated b m ext hdec]
+      exact hf
+    | swap sch x y => cases hdec
+    | sift sch => cases hdec
+    | reorderTo sch o => cases hdec
+    | undeclare vrs => cases hdec
+
 /-- **`step3_inv`**: every operation with every argument, accepted or rejected, reordering
-enabled or not — and `configure` itself — leads from a good state to a good state -/
+enabled or not, any number of variables — and `configure` itself — leads from a good state to a
+good state -/
 theorem step3_inv (m : Mgr) (ext : Nat → Nat) (op : UOp3) (h : Good3 m ext) (hg : OpGuard3 m ext op) :
     Good3 (runOp3 op m).2 (ledger3 op m ext) := by
   cases op with
-  | op o => exact (step3_op m ext h o hg).good
+  | op o => exact (step3_op_few m ext h o hg).1
   | configure b => exact (configure_step3 m ext h b).1
 
 /-- every operation keeps every reference the user holds: still a node, same function BY NAME —
@@ -472,7 +695,7 @@ also when the call triggered a sifting of the manager -/
 theorem step3_heldSame (m : Mgr) (ext : Nat → Nat) (op : UOp3) (h : Good3 m ext) (hg : OpGuard3 m ext op) :
     Held2 ext m (runOp3 op m).2 := by
   cases op with
-  | op o => exact (step3_op m ext h o hg).held
+  | op o => exact (step3_op_few m ext h o hg).2.1
   | configure b => exact (configure_step3 m ext h b).2.1
 
 /-- the switch after a call, given the switch before it -/
@@ -481,18 +704,23 @@ def UOp3.switchAfter : UOp3 → Bool → Bool
   | .configure b, _ => b
 
 /-- only `configure` changes whether dynamic reordering is enabled (F11: also a call that fails
-in the retry after a sifting re-arms it) -/
-theorem step3_switch (m : Mgr) (ext : Nat → Nat) (op : UOp3) (h : Good3 m ext) (hg : OpGuard3 m ext op) :
+in the retry after a sifting re-arms it) — outside the situation `SwitchSafe` excludes -/
+theorem step3_switch (m : Mgr) (ext : Nat → Nat) (op : UOp3) (h : Good3 m ext) (hg : OpGuard3 m ext op)
+    (hsafe : SwitchSafe m op) :
     (runOp3 op m).2.lastLen.isSome = op.switchAfter m.lastLen.isSome := by
   cases op with
-  | op o => exact (step3_op m ext h o hg).switch
+  | op o => exact (step3_op m ext h o hg (hsafe o rfl)).switch
   | configure b => exact (configure_step3 m ext h b).2.2.1
+
+/-- with two variables declared nothing is excluded -/
+theorem switchSafe_of_two (m : Mgr) (op : UOp3) (h2 : 2 ≤ m.nvars) : SwitchSafe m op :=
+  fun _ _ _ _ => h2
 
 /-- the internal signal `_NeedsReordering` never reaches the user -/
 theorem step3_noSignal (m : Mgr) (ext : Nat → Nat) (op : UOp3) (h : Good3 m ext) (hg : OpGuard3 m ext op) :
     (runOp3 op m).1 ≠ .error .needsReordering := by
   cases op with
-  | op o => exact (step3_op m ext h o hg).noSignal
+  | op o => exact (step3_op_few m ext h o hg).2.2
   | configure b =>
     show (mapRes _ (configure (some b) m)).1 ≠ _
     exact mapRes_noSignal _ _ (by rw [(configure_step3 m ext h b).2.2.2.2]; intro hh; cases hh)
@@ -542,7 +770,7 @@ theorem rejected3_ledger (m : Mgr) (ext : Nat → Nat) (op : UOp3) (h : Good3 m 
       | decref u =>
         by_cases hu : m.tbl.Mem u
         · exfalso
-          obtain ⟨c, -, he, -⟩ := decref_spec m ext u h.exact (hg.1 hu)
+          obtain ⟨c, -, he, -⟩ := decref_spec m ext u h.exact (hg hu)
           have : (mapRes (fun _ => Res.unit) (decref u m)).1 = .error e := hrej
           simp only [mapRes, he] at this
           cases this
@@ -608,9 +836,7 @@ theorem ops3Guarded_op (ops : List UOp2) (s : St) (h : Good2 s.m s.ext) (hg : Op
   induction ops generalizing s with
   | nil => trivial
   | cons op ops ih =>
-    refine ⟨⟨hg.1, fun hs => ?_⟩, ih (step2 op s) (step2_inv s.m s.ext op h hg.1) hg.2⟩
-    rw [h.good.off] at hs
-    cases hs
+    exact ⟨hg.1, ih (step2 op s) (step2_inv s.m s.ext op h hg.1) hg.2⟩
 
 /-- a reference the user holds and does not release stays a node and keeps its function of the
 variable NAMES through ANY guarded continuation — automatic and explicit reorderings included -/
